@@ -39,7 +39,7 @@ func (World) Assumptions(prop string) []string {
 		"'open' and 'active' epochs are the numOfActivePersisters newest epochs [cur-nAP+1, cur] (the window every reading of the configuration agrees on); 'retained' epochs are [cur-numOfEpochsToKeep+1, cur]; anything the storer keeps beyond these windows (stuck-shard extension, full-archive mode, lookup extensions, leaked handles) is allowed and only counted",
 		"clause 1: a successful Put with the put-epoch inside the open window / PutInEpoch into an open epoch creates the promise; Get/Has/SearchFirst must then succeed while that epoch is in the active window, GetFromEpoch(e) while e is retained; the returned value only has to be one of the values ever written for that key (several epochs may hold different values of one key); any Remove of the key (successful or not) ends all promises for it",
 		"clause 2 (removal): 'active epoch' here is every epoch in the storer's active list at the time of the Remove, stuck-shard extension epochs included. For the plain PruningStorer with pruning on the driver mirrors that list exactly (initPersistersInEpoch, changeEpoch, extendSavedEpochsIfNeeded with meta / stale prepare headers, extendActivePersisters, closePersisters with its one-at-a-time closing and map cleaning); the mirror is cross-checked against the disks Remove touched (probe remove_touched_other_epochs_than_mirrored_active_list, 0 on the repaired tree). For the full-history storer (its GetFromEpoch creates map entries the driver cannot see) and with pruning off, the numOfActivePersisters newest epochs are used, a subset of the real list",
-		"clause 2 check: after a Remove that returned nil and until the next put attempt of that key, Get/Has/SearchFirst, and GetFromEpoch of an epoch that was active at the Remove, must not return the key, unless some epoch that was NOT active at the time of the Remove still holds the key on its disk (the value may then legitimately come from there: an epoch re-opened by a later extension, a restart at another epoch)",
+		"clause 2 check: after a Remove that returned nil and until the next put attempt of that key, Get/Has/SearchFirst, and GetFromEpoch/GetBulkFromEpoch of an epoch that was active at the Remove, must not return the key. The only legitimate source is an epoch that was NOT active at the Remove and still holds the key: where the active list is mirrored (plain PruningStorer) such an epoch must actually have been in the active list at some moment since the Remove (re-opened by an extension, restart at another epoch), because plain reads and the cache only ever see active epochs - an epoch-specific read of a retained, inactive epoch in between does not make the key visible to plain reads; for the full-history storer / pruning off, any such epoch on disk exempts the read",
 		"clause 1 stays on the conservative window (numOfActivePersisters newest epochs) although extension epochs are in the active list: Get deliberately reads only the first numOfActivePersisters entries, so promising plain reads from extension epochs would flag the unchanged, intended behaviour of Get",
 		"restarts are not in the statement's quantifier: they are clean (Close, rebuild over the same disks). The bloom filter is memory-only, so with bloom on a key not written since the last restart is not promised to Get/Has (counted as probe bloom_forgot_after_restart); SearchFirst and GetFromEpoch are still checked",
 		"pruning disabled (knob prune=0): one persister that is always active; plain reads are promised for every successful Put; nothing is promised for the epoch API",
@@ -50,8 +50,9 @@ func (World) Assumptions(prop string) []string {
 
 func (World) Rule(prop string) string {
 	return "knobs: active persisters 1-3, epochs to keep active..active+4, pruning on (90%), bloom off/16..2048 bytes with 1 or 3 hashers, cache 1-50, starting epoch 0-3, " +
-		"full-history storer (30%), old-data cleaner on/off, db-lookup extensions on/off; 20-120 steps of Put|PutInEpoch|Get|GetFromEpoch|Has|SearchFirst|Remove|ClearCache|" +
+		"full-history storer (30%), old-data cleaner on/off, db-lookup extensions on/off; 20-120 steps of Put|PutInEpoch|Get|GetFromEpoch|GetBulkFromEpoch|Has|SearchFirst|Remove|ClearCache|" +
 		"ChangeEpoch(+1; shard or meta header, optional prepare header naming a stuck shard epoch)|SetEpochForPut|Restart(start epoch) over 2-8 keys with per-run op weights; " +
+		"35% of the runs add bursts Remove -> GetFromEpoch|GetBulkFromEpoch of retained, no longer active epochs -> Get|Has|SearchFirst of that key; " +
 		"35% of the runs add bursts PutInEpoch(oldest active epoch) -> ChangeEpoch with a stuck-shard extension -> Remove -> ClearCache -> Has|SearchFirst|Get|GetFromEpoch of that key; " +
 		"arms faultfree / restart (close_reopen) / faults (get_error, put_error, remove_error, has_error on one epoch's disk + close_reopen); " +
 		"non-trivial = at least one epoch change and at least one checked read of a value written in an earlier epoch or one checked read after a Remove; distinct = hash of full plan; " +
